@@ -213,21 +213,34 @@ Definition run_collapse (d : cds nat nat) (ref_secondary : bool)
    map (fun c => zs (gather 0 (partner_points refrow otherrow c) othervals)) (seq 0 nref),
    (Z.of_nat h, Z.of_nat (length m), forallb (fun col => length col =? h) m)).
 
-(* <var>_number and the NaN-ness of <var>_mean / <var>_std, exactly: the harness hands over the validity flags of
-   the other group's variable (one list of flags per stored point, one flag per lane of the extra dimensions);
-   model: count over lane j of every column of the bin matrix; spec: count over lane j of the partner points.
+(* the same with <var>_number and the NaN-ness of <var>_mean / <var>_std, exactly: the harness hands over the validity
+   flags of the other group's variable (one list of flags per stored point, one flag per lane of the extra
+   dimensions); every stored point of the other group carries (id, flags) through ONE bin matrix (theorem bins_lanes:
+   the lanes fst / snd of it are the bin matrices of the ids and of the flags).
+   model: ids and, per lane j, the count of valid cells of every column; spec: the same over the partner points.
    Theorem collapse_number_by_mask: counting flags is counting the non-NaN real values. *)
 Definition mask_lane (j : nat) (a : list bool) : option unit := if nth j a false then Some tt else None.
-Definition run_counts (d : cds nat nat) (ref_secondary : bool) (masks : list (list bool)) (nlanes : Z)
-  : list (list Z) * list (list Z) :=
+Definition run_collapse_m (d : cds nat nat) (ref_secondary : bool) (masks : list (list bool)) (nlanes : Z)
+  : list (list Z) * list (list Z) * (Z * Z * bool) * list (list Z) * list (list Z) :=
   let refrow := if ref_secondary then srow d else prow d in
   let otherrow := if ref_secondary then prow d else srow d in
+  let othervals := if ref_secondary then pvals d else svals d in
   let nref := if ref_secondary then length (svals d) else length (pvals d) in
   let lanes := seq 0 (Z.to_nat nlanes) in
-  let m := collapse_model [] refrow otherrow masks in
-  (map (fun col => map (fun j => Z.of_nat (count (map (cell_view (mask_lane j)) col))) lanes) m,
-   map (fun c => map (fun j => Z.of_nat (count (map (mask_lane j) (gather [] (partner_points refrow otherrow c) masks))))
-                     lanes) (seq 0 nref)).
+  let m := collapse_model (0, []) refrow otherrow (combine othervals masks) in
+  let h := S (list_max (rows_for refrow)) in
+  let pp := map (partner_points refrow otherrow) (seq 0 nref) in
+  (map (fun col => zs (map fst (somes col))) m,
+   map (fun p => zs (gather 0 p othervals)) pp,
+   (Z.of_nat h, Z.of_nat (length m), forallb (fun col => length col =? h) m),
+   map (fun col => map (fun j => Z.of_nat (count (map (cell_view (fun a : nat * list bool => mask_lane j (snd a))) col))) lanes) m,
+   map (fun p => map (fun j => Z.of_nat (count (map (mask_lane j) (gather [] p masks)))) lanes) pp).
+
+Definition run_dataset_m (np nsec : Z) (pr sr : list Z) (masks_p : list (list bool)) (lanes_p : Z)
+    (masks_s : list (list bool)) (lanes_s : Z) :=
+  let d := ids_cds np nsec pr sr in
+  (compact_okb d, expand_ids d, expand_spec_ids d,
+   run_collapse_m d false masks_s lanes_s, run_collapse_m d true masks_p lanes_p).
 
 Definition run_dataset (np nsec : Z) (pr sr : list Z) :=
   let d := ids_cds np nsec pr sr in
